@@ -691,6 +691,19 @@ pub struct Stats {
     pub pruned: bool,
     pub wall_hit: bool,
     pub determinism_reruns: u64,
+    /// the case turned out larger than `abort_after` executions and was given up (to be split)
+    pub aborted_too_big: bool,
+    /// executions run only to learn the shape of the choice tree above the split depth
+    pub structure_runs: u64,
+}
+
+/// Restricts an exploration to one share of the choice tree: executions are dealt to `parts`
+/// shares by a hash of their first `depth` choices.
+#[derive(Clone, Copy, Debug)]
+pub struct Split {
+    pub part: u32,
+    pub parts: u32,
+    pub depth: usize,
 }
 
 pub enum Control {
@@ -709,10 +722,13 @@ pub enum ExploreError {
 /// `run` performs one execution for the given prefix and returns its result plus a hash of the
 /// complete observable log (used by the determinism re-runs); `visit` is called once per
 /// complete execution.
+#[allow(clippy::too_many_arguments)]
 pub fn explore(
     bound: Option<u32>,
     deadline: Option<std::time::Instant>,
     rerun_first: u64,
+    split: Option<Split>,
+    abort_after: Option<u64>,
     run: &mut dyn FnMut(&[ChoiceRec]) -> (ExecResult, u64),
     visit: &mut dyn FnMut(&ExecResult) -> Control,
 ) -> Result<Stats, ExploreError> {
@@ -726,6 +742,28 @@ pub fn explore(
         }
         if let Some(c) = res.capped {
             return Err(ExploreError::Capped(c));
+        }
+        // does this execution belong to our share of the tree?
+        let mine = match split {
+            None => true,
+            Some(sp) => {
+                let mut h: u64 = 0x5eed;
+                for i in 0..sp.depth {
+                    let c = res.choices.get(i).map(|c| c.chosen as u64 + 1).unwrap_or(0);
+                    h = mix(h, c);
+                }
+                (h >> 7) % sp.parts as u64 == sp.part as u64
+            }
+        };
+        if !mine {
+            // a foreign subtree: remember its shape down to the split depth only
+            stats.structure_runs += 1;
+            path = res.choices;
+            path.truncate(split.map(|s| s.depth).unwrap_or(0));
+            if !backtrack(&mut path, bound, &mut stats) {
+                return Ok(stats);
+            }
+            continue;
         }
         if stats.schedules < rerun_first || stats.schedules % 8192 == 0 {
             let (res2, loghash2) = run(&res.choices);
@@ -755,29 +793,39 @@ pub fn explore(
                 return Ok(stats);
             }
         }
-        // backtrack
-        loop {
-            let Some(last) = path.last().copied() else {
-                return Ok(stats);
-            };
-            if last.chosen + 1 < last.n {
-                // deviation bound: going from 0 to 1 adds a deviation
-                if let Some(b) = bound {
-                    if last.chosen == 0 {
-                        let devs = path[..path.len() - 1].iter().filter(|c| c.chosen != 0).count();
-                        if devs as u32 >= b {
-                            stats.pruned = true;
-                            path.pop();
-                            continue;
-                        }
+        if abort_after.is_some_and(|m| stats.schedules >= m) {
+            stats.aborted_too_big = true;
+            return Ok(stats);
+        }
+        if !backtrack(&mut path, bound, &mut stats) {
+            return Ok(stats);
+        }
+    }
+}
+
+/// Advances `path` to the next unexplored alternative; false when the tree is exhausted.
+fn backtrack(path: &mut Vec<ChoiceRec>, bound: Option<u32>, stats: &mut Stats) -> bool {
+    loop {
+        let Some(last) = path.last().copied() else {
+            return false;
+        };
+        if last.chosen + 1 < last.n {
+            // deviation bound: going from 0 to 1 adds a deviation
+            if let Some(b) = bound {
+                if last.chosen == 0 {
+                    let devs = path[..path.len() - 1].iter().filter(|c| c.chosen != 0).count();
+                    if devs as u32 >= b {
+                        stats.pruned = true;
+                        path.pop();
+                        continue;
                     }
                 }
-                let l = path.len() - 1;
-                path[l].chosen += 1;
-                break;
             }
-            path.pop();
+            let l = path.len() - 1;
+            path[l].chosen += 1;
+            return true;
         }
+        path.pop();
     }
 }
 
